@@ -29,7 +29,6 @@ warnings.simplefilter("ignore")
 logging.disable(logging.CRITICAL)
 np.seterr(all="ignore")
 
-import robotools  # noqa: E402
 from robotools import DilutionPlan, EvoWorklist, FluentWorklist, Labware, Trough  # noqa: E402
 
 PROP = "C14"
@@ -305,7 +304,12 @@ def run_exec(p, e, plan, info):
             v, a = state["DP"][(r, c)]
             exp_v = Fr(vm[c]) - drawn[c][r] - (Fr(v_dest) if dest is not None else 0)
             got = a / v * Fr(p["stock"]) if v else None
-            ok = (v == exp_v and got == conc[c][r]) if exact else (close(v, exp_v, ab=0.02) and got is not None and close(got, conc[c][r], rel=1e-3))
+            if exp_v == 0:  # the column was used up completely by the later columns: nothing left to measure
+                ok = v == 0 if exact else close(v, 0, ab=0.02)
+            elif exact:
+                ok = v == exp_v and got == conc[c][r]
+            else:
+                ok = close(v, exp_v, ab=0.02) and got is not None and close(got, conc[c][r], rel=1e-3)
             if not ok:
                 return [f"records give well [{r},{c}] volume {float(v)} conc {None if got is None else float(got)}; plan implies {float(exp_v)} / {float(conc[c][r])}"]
             if dest is not None:
@@ -325,8 +329,6 @@ def run_case(case):
     plan, bad = make_plan(p)
     tags = {"planned": plan is not None, "known": False, "executed": False, "fanout": 0}
     if plan is None or bad:
-        if plan is None and not bad and must_raise(p) is None and case.get("expect_plan"):
-            bad = ["ValueError although the request is satisfiable by the documented procedure"]
         return bad, tags
     bad, info = check_plan(p, plan)
     tags["fanout"] = info["fanout"]
